@@ -312,3 +312,15 @@ Qed.
 
 Lemma cells_ok_distinct nn np t : cells_ok nn np t -> Forall (fun c => NoDup c /\ length c = nn) t.
 Proof. intros H. eapply Forall_impl; [|exact H]. intros c [H1 [H2 _]]. auto. Qed.
+
+(* the offsets the library uses and the canonical ones give the same children (for the node kinds the templates use) *)
+Lemma child_canon tpls o np cE cF (ctx : cctx) tpl :
+  (uses KE tpls = true -> offE o = np) -> (uses KF tpls = true -> offF o = np + cE) ->
+  (uses KC tpls = true -> offC o = np + cE + cF) -> In tpl tpls ->
+  child o ctx tpl = child (canon_offs np cE cF) ctx tpl.
+Proof.
+  intros HE HF HC Hin. unfold child. apply map_ext_in. intros r Hr. destruct r as [i|j|j|]; simpl; [reflexivity| | |].
+  - destruct (uses KE tpls) eqn:U; [now rewrite (HE eq_refl)|]. exfalso. exact (uses_false_E tpls tpl j U Hin Hr).
+  - destruct (uses KF tpls) eqn:U; [now rewrite (HF eq_refl)|]. exfalso. exact (uses_false_F tpls tpl j U Hin Hr).
+  - destruct (uses KC tpls) eqn:U; [now rewrite (HC eq_refl)|]. exfalso. exact (uses_false_C tpls tpl U Hin Hr).
+Qed.
